@@ -659,6 +659,12 @@ class Lowering:
                                 return low.expr(body[0].value, env)
                             finally:
                                 self._nt_depth -= 1
+        if op(func) == "gconst" and len(args) == 1 and not kws and op(args[0]) != "star":
+            # X = NewType("X", str): calling X is the identity at run time
+            mod_n = self.model.modules.get(func[1])
+            node_n = mod_n.constants.get(func[2]) if mod_n is not None else None
+            if isinstance(node_n, ast.Call) and (getattr(node_n.func, "id", None) or getattr(node_n.func, "attr", None)) == "NewType":
+                return args[0]
         if op(func) == "gconst":
             fv = self._callable_constant(func)
             if fv is not None:
